@@ -724,18 +724,59 @@ func callSigs(calls []TCall, restrict bool) []string {
 	return out
 }
 
+// C20Mix: three runs out of four are the typed/untyped differential, the
+// fourth exercises one of the eight GENERATED joins (the other behavioural
+// clause of C20: a hand edit of one generated join file separates it from the
+// selection its own rule prescribes, with the same scenario generator for all).
+type C20Mix struct {
+	Diff *Diff `json:"diff,omitempty"`
+	Join *Join `json:"join,omitempty"`
+}
+
+var generatedJoins = []string{"service", "rc", "rs", "deployment", "daemonset", "statefulset", "job", "ingress-service"}
+
 func init() {
 	Registry["C20"] = &Family{
-		Gen: genC20,
-		New: func() interface{} { return &Diff{} },
-		Run: runC20,
-		Sim: func(sc interface{}) SimCfg { return sc.(*Diff).Sim },
+		Gen: func(g GenCtx) interface{} {
+			if g.Idx%4 == 3 {
+				return &C20Mix{Join: genJoin(g, generatedJoins[(g.Idx/4)%len(generatedJoins)])}
+			}
+			return &C20Mix{Diff: genC20(g).(*Diff)}
+		},
+		New: func() interface{} { return &C20Mix{} },
+		Run: func(sci interface{}) {
+			m := sci.(*C20Mix)
+			switch {
+			case m.Join != nil:
+				runJoin(m.Join)
+			case m.Diff != nil:
+				runC20(m.Diff)
+			}
+		},
+		Sim: func(sci interface{}) SimCfg {
+			m := sci.(*C20Mix)
+			if m.Join != nil {
+				return m.Join.Sim
+			}
+			if m.Diff != nil {
+				return m.Diff.Sim
+			}
+			return SimCfg{}
+		},
 		Describe: func(sci interface{}) string {
-			sc := sci.(*Diff)
-			return fmt.Sprintf("package=%s foreign=%q init=%d acts=%d strategy=%s", sc.Kind, sc.Foreign, len(sc.Init), len(sc.Acts), sc.Sim.Strategy.Kind)
+			m := sci.(*C20Mix)
+			if m.Join != nil {
+				return "generated join: " + describeJoin(m.Join)
+			}
+			sc := m.Diff
+			return fmt.Sprintf("package=%s foreign=%q bufsiz=%d init=%d acts=%d strategy=%s", sc.Kind, sc.Foreign, sc.Bufsiz, len(sc.Init), len(sc.Acts), sc.Sim.Strategy.Kind)
 		},
 		Nontrivial: func(sci interface{}, res *detsim.Result) bool {
-			return len(sci.(*Diff).Acts) > 1 && res.Contended > 10
+			m := sci.(*C20Mix)
+			if m.Join != nil {
+				return len(m.Join.Acts) > 0 && res.Contended > 10
+			}
+			return m.Diff != nil && len(m.Diff.Acts) > 1 && res.Contended > 10
 		},
 	}
 }
